@@ -82,6 +82,11 @@ class C09(Prop):
         # wide registers: the N=3 programs relabelled onto qubits around index 64 (one machine word of qubit flags)
         wide = [ids for ids, _ in self.progs if len(ids) == 3 and all(i <= 14 for i in ids)]
         rng = self.rng
+        # the empty program: a circuit that has taken no gate is the identity in every configuration
+        for c in CONFIGS:
+            yield {"k": "circuit", "items": [], "n": 3, "cfg": list(c), "pkg": "py"}
+        for c in TCONFIGS:
+            yield {"k": "circuit", "items": [], "n": 3, "cfg": list(c), "pkg": "torch"}
         for j, (n, m, mi) in enumerate(self.dense):
             qs = list(range(1, n + 1))
             for how in ("fwd", "bwd", "both"):
